@@ -15,10 +15,31 @@ fn eq_bytes(a: &[u8], b: &[u8]) -> bool {
     true
 }
 
-// C16: absolute path of a URI -- all UTF-8 URIs of length <= 9 bytes over the property's alphabet
-const U: usize = 9;
+
+// over the alphabet {ASCII letters/punctuation, C3, A9} a byte string is valid UTF-8 iff every C3 is followed by A9 and
+// every A9 is preceded by C3; checking that by hand avoids running std's UTF-8 validator symbolically (the dominant
+// cost), and from_utf8_unchecked is then sound
+fn alphabet_utf8(b: &[u8]) -> bool {
+    let mut i = 0;
+    while i < b.len() {
+        if b[i] == 0xC3 {
+            if i + 1 >= b.len() || b[i + 1] != 0xA9 {
+                return false;
+            }
+            i += 2;
+        } else if b[i] == 0xA9 {
+            return false;
+        } else {
+            i += 1;
+        }
+    }
+    true
+}
+
+// C16: absolute path of a URI -- all UTF-8 URIs of length <= 12 bytes over the property's alphabet
+const U: usize = 12;
 #[kani::proof]
-#[kani::unwind(12)]
+#[kani::unwind(15)]
 fn uri_abs_path() {
     let buf: [u8; U] = kani::any();
     let len: usize = kani::any();
@@ -30,10 +51,11 @@ fn uri_abs_path() {
         kani::assume(c == b'h' || c == b't' || c == b'p' || c == b':' || c == b'/' || c == b'a' || c == b'.' || c == b'%' || c == 0xC3 || c == 0xA9);
         i += 1;
     }
-    let s = match std::str::from_utf8(&buf[..len]) {
-        Ok(s) => s,
-        Err(_) => return,
-    };
+    if !alphabet_utf8(&buf[..len]) {
+        return;
+    }
+    // SAFETY: validated just above
+    let s = unsafe { std::str::from_utf8_unchecked(&buf[..len]) };
     let uri = Uri::new(s);
     let p = uri.get_abs_path().as_bytes();
     let b = &buf[..len];
@@ -61,4 +83,62 @@ fn uri_abs_path() {
     }
     // hence always empty or a '/'-prefixed suffix of the URI
     assert!(p.is_empty() || (p[0] == b'/' && p.len() <= len && eq_bytes(p, &b[len - p.len()..])));
+}
+
+// C16: absolute-form URIs: "http://" followed by up to 5 bytes over the property's alphabet (authority and path,
+// including the two-byte character U+00E9) -- covers URIs of up to 12 bytes that the 9-byte harness cannot reach;
+// S = 3 and S = 8
+fn check_http<const S: usize>() {
+    let suf: [u8; S] = kani::any();
+    let slen: usize = kani::any();
+    kani::assume(slen <= S);
+    let mut i = 0;
+    while i < S {
+        let c = suf[i];
+        kani::assume(c == b'h' || c == b't' || c == b'p' || c == b':' || c == b'/' || c == b'a' || c == b'.' || c == b'%' || c == 0xC3 || c == 0xA9);
+        i += 1;
+    }
+    let mut buf = [0u8; 15];
+    assert!(S <= 8);
+    buf[0] = b'h'; buf[1] = b't'; buf[2] = b't'; buf[3] = b'p'; buf[4] = b':'; buf[5] = b'/'; buf[6] = b'/';
+    let mut i = 0;
+    while i < S {
+        buf[7 + i] = suf[i];
+        i += 1;
+    }
+    let len = 7 + slen;
+    if !alphabet_utf8(&buf[..len]) {
+        return;
+    }
+    // SAFETY: validated just above
+    let s = unsafe { std::str::from_utf8_unchecked(&buf[..len]) };
+    let uri = Uri::new(s);
+    let p = uri.get_abs_path().as_bytes();
+    let b = &buf[..len];
+    let mut k = 7;
+    let mut found = false;
+    while k < len {
+        if b[k] == b'/' {
+            found = true;
+            break;
+        }
+        k += 1;
+    }
+    if found {
+        assert!(eq_bytes(p, &b[k..]));
+    } else {
+        assert!(p.is_empty());
+    }
+}
+
+#[kani::proof]
+#[kani::unwind(14)]
+fn uri_abs_path_http3() {
+    check_http::<3>();
+}
+
+#[kani::proof]
+#[kani::unwind(18)]
+fn uri_abs_path_http8() {
+    check_http::<8>();
 }
